@@ -15,7 +15,7 @@ from . import env
 from .rng import run_tag
 
 KNOWN = []  # set by checks.run_check before the sweep (inherited by forked workers)
-RUN_TIMEOUT = float(os.environ.get("VERIF_RUN_TIMEOUT", "180"))
+RUN_TIMEOUT = float(os.environ.get("VERIF_RUN_TIMEOUT", "900"))
 MINIMISE_BUDGET = float(os.environ.get("VERIF_MINIMISE_BUDGET", "150"))
 
 
@@ -236,7 +236,7 @@ def sweep(engine, prop, tier, seed, nruns, workers, wall_cap=None, stop_on_viola
 
 
 def _fails_same(engine, case, key, scratch_dir):
-    res = run_case(engine, case, scratch_dir, timeout=60)
+    res = run_case(engine, case, scratch_dir, timeout=300)
     for v in res.get("violations", []):
         if (v.get("prop"), v.get("oracle")) == key:
             return v
